@@ -336,9 +336,14 @@ impl SecondOrderCone<F> {
         self.sparse_data matches Some(sd) ==> final(Hsblock)@[0] == f_mul(f_mul(self.eta, self.eta), sd.d)
             && forall|i: int| 1 <= i < old(Hsblock)@.len() ==> #[trigger] final(Hsblock)@[i] == f_mul(self.eta, self.eta),
         // dense form: eta^2 (2 w w' - J), upper triangle packed column by column
-        self.sparse_data is None ==> forall|row: int, col: int| 0 <= row <= col < self.dim ==> final(Hsblock)@[#[trigger] pk(row, col)] == hs_dense(self.w@, self.eta, row, col),
+        // (entry (row, col), row <= col < dim, at position col (col + 1) / 2 + row: see is_dense_Hs)
+        self.sparse_data is None ==> is_dense_Hs(final(Hsblock)@, self.w@, self.eta),
 //@pre
         let ghost dim = self.dim as int;
+//@before "Hsblock[0] ="
+            proof { lemma_tri_mono(1, dim); assert(tri(1) == 1 && pk(0, 0) == 0) by { reveal_with_fuel(tri, 3); } }
+//@after "Hsblock.scale(self.eta * self.eta);"
+            proof { lemma_pk_below(dim); }
 //@loop 1
                 invariant
                     dim == self.dim, dim >= 1, self.w@.len() == dim, Hsblock@.len() == tri(dim), hidx == tri($var1 as int), two == f_lit(2.0),
@@ -354,6 +359,399 @@ impl SecondOrderCone<F> {
 //@before "Hsblock[hidx - 1] += "
                 proof { lemma_pk_below($var1 as int); lemma_tri_mono($var1 as int + 1, dim); assert(pk($var1 as int, $var1 as int) == hidx - 1); }
 //@end
+}
+
+// ------------------------------------------------------------------ Nesterov-Todd scaling (update_scaling), as evaluated by the code
+//   zs = sqrt(resid z), ss = sqrt(resid s), eta = sqrt(ss / zs)
+//   wa = s / ss + J z / zs                       (unnormalised;  J = diag(1, -I))
+//   ws = sqrt(resid wa),  wb = wa / ws,  w = (sqrt(1 + |wb_1|^2), wb_1)
+//   gamma = ws / 2,  lambda = sqrt(ss zs) (gamma,  ((gamma + z0/zs)/ss s_1 + (gamma + s0/ss)/zs z_1) / (s0/ss + z0/zs + 2 gamma))
+pub open spec fn us_zs(z: Seq<F>) -> F { sqrt_resid(z) }
+pub open spec fn us_eta(s: Seq<F>, z: Seq<F>) -> F { f_sqrt(f_div(sqrt_resid(s), sqrt_resid(z))) }
+pub open spec fn us_wa(s: Seq<F>, z: Seq<F>) -> Seq<F> {
+    let ss = sqrt_resid(s); let zs = sqrt_resid(z);
+    Seq::new(s.len(), |i: int| if i == 0 { f_add(f_mul(s[0], f_recip(ss)), f_div(z[0], zs)) }
+        else { f_add(f_mul(f_neg(f_recip(zs)), z[i]), f_mul(f_one(), f_mul(s[i], f_recip(ss)))) })
+}
+pub open spec fn us_ws(s: Seq<F>, z: Seq<F>) -> F { sqrt_resid(us_wa(s, z)) }
+pub open spec fn us_wb(s: Seq<F>, z: Seq<F>) -> Seq<F> { Seq::new(s.len(), |i: int| f_mul(us_wa(s, z)[i], f_recip(us_ws(s, z)))) }
+pub open spec fn us_w1sq(s: Seq<F>, z: Seq<F>) -> F { vm_sumsq(tail(us_wb(s, z))) }
+pub open spec fn us_w(s: Seq<F>, z: Seq<F>) -> Seq<F> {
+    Seq::new(s.len(), |i: int| if i == 0 { f_sqrt(f_add(f_one(), us_w1sq(s, z))) } else { us_wb(s, z)[i] })
+}
+pub open spec fn us_gamma(s: Seq<F>, z: Seq<F>) -> F { f_mul(f_lit(0.5), us_ws(s, z)) }
+pub open spec fn us_lambda(s: Seq<F>, z: Seq<F>) -> Seq<F> {
+    let ss = sqrt_resid(s); let zs = sqrt_resid(z); let g = us_gamma(s, z);
+    let a = f_div(f_add(g, f_div(z[0], zs)), ss);
+    let b = f_div(f_add(g, f_div(s[0], ss)), zs);
+    let cinv = f_recip(f_add(f_add(f_div(s[0], ss), f_div(z[0], zs)), f_mul(f_lit(2.0), g)));
+    let rt = f_sqrt(f_mul(ss, zs));
+    Seq::new(s.len(), |i: int| if i == 0 { f_mul(g, rt) } else { f_mul(f_mul(f_add(f_mul(a, s[i]), f_mul(b, z[i])), cinv), rt) })
+}
+// sparse expansion  W'W = eta^2 (D + u u' - v v'),  D = diag(d, 1, .., 1):
+//   wsq = w0^2 + |w1|^2,  d = 1 / (2 wsq),  u = (sqrt(wsq - d), (2 w0 / u0) w1),  v = (0, sqrt(2 (2 + 1/wsq) / (2 wsq - 1/wsq)) w1)
+pub open spec fn us_wsq(s: Seq<F>, z: Seq<F>) -> F { f_add(f_mul(us_w(s, z)[0], us_w(s, z)[0]), us_w1sq(s, z)) }
+pub open spec fn us_d(s: Seq<F>, z: Seq<F>) -> F { f_mul(f_lit(0.5), f_recip(us_wsq(s, z))) }
+pub open spec fn us_u0(s: Seq<F>, z: Seq<F>) -> F { f_sqrt(f_sub(us_wsq(s, z), us_d(s, z))) }
+pub open spec fn us_u1(s: Seq<F>, z: Seq<F>) -> F { f_div(f_mul(f_lit(2.0), us_w(s, z)[0]), us_u0(s, z)) }
+pub open spec fn us_v1(s: Seq<F>, z: Seq<F>) -> F {
+    let wsq = us_wsq(s, z); let wsqinv = f_recip(wsq);
+    f_sqrt(f_div(f_mul(f_lit(2.0), f_add(f_lit(2.0), wsqinv)), f_sub(f_mul(f_lit(2.0), wsq), wsqinv)))
+}
+// the tails are written by axpby(c, w1, 0): c w_i + 0 * (old entry)
+pub open spec fn us_u(s: Seq<F>, z: Seq<F>, u_old: Seq<F>) -> Seq<F> {
+    Seq::new(s.len(), |i: int| if i == 0 { us_u0(s, z) } else { f_add(f_mul(us_u1(s, z), us_w(s, z)[i]), f_mul(f_zero(), u_old[i])) })
+}
+pub open spec fn us_v(s: Seq<F>, z: Seq<F>, v_old: Seq<F>) -> Seq<F> {
+    Seq::new(s.len(), |i: int| if i == 0 { f_zero() } else { f_add(f_mul(us_v1(s, z), us_w(s, z)[i]), f_mul(f_zero(), v_old[i])) })
+}
+// s or z not strictly inside the cone (as far as the rounded residual can tell)
+pub open spec fn us_not_interior(s: Seq<F>, z: Seq<F>) -> bool { f_eq(sqrt_resid(z), f_zero()) || f_eq(sqrt_resid(s), f_zero()) }
+impl SecondOrderCone<F> {
+//@fn file=src/solver/core/cones/socone.rs in="Cone<T> for SecondOrderCone<T>" name=update_scaling rules=R1,R2,R15:self.lambda|sparse_data.u|sparse_data.v|w ret=r
+//@contract
+    requires soc_wf(*old(self)), s@.len() == old(self).w@.len(), z@.len() == old(self).w@.len(),
+    ensures
+        soc_wf(*final(self)), final(self).dim == old(self).dim, final(self).w@.len() == old(self).w@.len(),
+        final(self).sparse_data is Some == old(self).sparse_data is Some,
+        // fails exactly when s, z or the unnormalised w is not an interior point; nothing is touched in the first case
+        r == !(us_not_interior(s@, z@) || f_eq(us_ws(s@, z@), f_zero())),
+        us_not_interior(s@, z@) ==> *final(self) == *old(self),
+        !r ==> final(self).lambda@ == old(self).lambda@ && final(self).sparse_data == old(self).sparse_data,
+        r ==> final(self).eta == us_eta(s@, z@) && final(self).w@ == us_w(s@, z@) && final(self).lambda@ == us_lambda(s@, z@),
+        r ==> (final(self).sparse_data matches Some(sd) ==> sd.d == us_d(s@, z@)
+                && sd.u@ == us_u(s@, z@, old(self).sparse_data->Some_0.u@) && sd.v@ == us_v(s@, z@, old(self).sparse_data->Some_0.v@)),
+//@pre
+        let ghost c0 = *self;
+//@before "let wscale = _sqrt_soc_residual(w)"
+        proof { assert(w@ =~= us_wa(s@, z@)); }
+//@before "let w1sq ="
+        proof { assert(w@ =~= us_wb(s@, z@)); }
+//@before "let gamma = half * wscale"
+        proof { assert(w@ =~= us_w(s@, z@)); }
+//@before "if let Some(sparse_data) = &mut self.sparse_data"
+        proof { assert(self.lambda@ =~= us_lambda(s@, z@)); }
+//@after "sparse_data.v.as_mut_slice()[1..].axpby("
+            proof {
+                assert(sparse_data.u@ =~= us_u(s@, z@, c0.sparse_data->Some_0.u@));
+                assert(sparse_data.v@ =~= us_v(s@, z@, c0.sparse_data->Some_0.v@));
+            }
+//@end
+}
+
+// ====================================================================================================================
+// Level 2: F-real readings (exact reals) of the contracts above
+// ====================================================================================================================
+// ASSUMED "real square root" (ADMITTED, used only by the lemmas below, never by a function contract): for x >= 0, sqrt(x) is the
+// nonnegative root; the constant SQRT_2 is the positive root of 2; the literal 0.5 is one half
+pub mod sqrt_ax {
+    use super::*;
+    pub broadcast proof fn ax_sqrt_nonneg(a: F) requires a.v() >= 0real ensures (#[trigger] f_sqrt(a)).v() >= 0real { admit(); }
+    pub broadcast proof fn ax_sqrt_sq(a: F) requires a.v() >= 0real ensures (#[trigger] f_sqrt(a)).v() * f_sqrt(a).v() == a.v() { admit(); }
+    pub broadcast proof fn ax_sqrt2() ensures (#[trigger] f_sqrt2()).v() > 0real, f_sqrt2().v() * f_sqrt2().v() == 2real { admit(); }
+    pub broadcast proof fn ax_lit_half() ensures (#[trigger] f_lit(0.5f64)).v() * 2real == 1real { admit(); }
+    pub broadcast group real_sqrt { ax_sqrt_nonneg, ax_sqrt_sq, ax_sqrt2, ax_lit_half }
+}
+pub use sqrt_ax::*;
+// vacuity guard: MUST FAIL
+pub proof fn canary_sqrt() ensures false { broadcast use real_arith, real_sqrt; }
+
+pub open spec fn rdot(a: Seq<F>, b: Seq<F>, k: int) -> real decreases k { if k <= 0 { 0real } else { rdot(a, b, k - 1) + a[k - 1].v() * b[k - 1].v() } }
+// z0^2 - |z1|^2
+pub open spec fn resid_r(z: Seq<F>) -> real { z[0].v() * z[0].v() - rdot(tail(z), tail(z), z.len() - 1) }
+pub proof fn lemma_fold_dot_real(a: Seq<F>, b: Seq<F>, k: int)
+    requires 0 <= k,
+    ensures fold_dot(a, b, k).v() == rdot(a, b, k),
+    decreases k,
+{
+    broadcast use real_arith;
+    if k > 0 { lemma_fold_dot_real(a, b, k - 1); }
+}
+pub proof fn lemma_vm_dot_real(a: Seq<F>, b: Seq<F>)
+    requires a.len() == b.len(),
+    ensures vm_dot(a, b).v() == rdot(a, b, a.len() as int),
+{
+    reveal(vm_dot);
+    lemma_fold_dot_real(a, b, a.len() as int);
+}
+pub proof fn lemma_rdot_sq_nonneg(a: Seq<F>, k: int)
+    requires 0 <= k,
+    ensures rdot(a, a, k) >= 0real,
+    decreases k,
+{
+    if k > 0 { lemma_rdot_sq_nonneg(a, k - 1); let p = a[k - 1].v(); assert(p * p >= 0real) by(nonlinear_arith); }
+}
+pub proof fn lemma_resid_real(z: Seq<F>)
+    requires z.len() >= 1,
+    ensures soc_resid(z).v() == resid_r(z),
+{
+    broadcast use real_arith, real_sqrt;
+    reveal(vm_norm);
+    let t = tail(z); let n = z.len() - 1;
+    assert(t.len() == n);
+    lemma_fold_dot_real(t, t, n); lemma_rdot_sq_nonneg(t, n);
+    let nv = vm_norm(t).v(); let z0 = z[0].v(); let ss = rdot(t, t, n);
+    assert(nv * nv == ss);
+    assert((z0 - nv) * (z0 + nv) == z0 * z0 - ss) by(nonlinear_arith) requires nv * nv == ss;
+}
+// the first term of a dot product split off
+pub proof fn lemma_rdot_split(a: Seq<F>, b: Seq<F>, k: int)
+    requires 1 <= k <= a.len(), k <= b.len(),
+    ensures rdot(a, b, k) == a[0].v() * b[0].v() + rdot(tail(a), tail(b), k - 1),
+    decreases k,
+{
+    if k > 1 {
+        lemma_rdot_split(a, b, k - 1);
+        assert(tail(a)[k - 2] == a[k - 1] && tail(b)[k - 2] == b[k - 1]);
+    } else {
+        assert(rdot(a, b, 0) == 0real && rdot(tail(a), tail(b), 0) == 0real);
+    }
+}
+// <a, c1 p + c2 q> = c1 <a, p> + c2 <a, q>
+pub proof fn lemma_rdot_lin(a: Seq<F>, x: Seq<F>, p: Seq<F>, q: Seq<F>, c1: real, c2: real, k: int)
+    requires 0 <= k, forall|i: int| 0 <= i < k ==> #[trigger] x[i].v() == c1 * p[i].v() + c2 * q[i].v(),
+    ensures rdot(a, x, k) == c1 * rdot(a, p, k) + c2 * rdot(a, q, k),
+    decreases k,
+{
+    if k > 0 {
+        lemma_rdot_lin(a, x, p, q, c1, c2, k - 1);
+        let av = a[k - 1].v(); let pv = p[k - 1].v(); let qv = q[k - 1].v(); let xv = x[k - 1].v();
+        let P = rdot(a, p, k - 1); let Q = rdot(a, q, k - 1);
+        assert(xv == c1 * pv + c2 * qv);
+        assert(av * (c1 * pv + c2 * qv) == c1 * (av * pv) + c2 * (av * qv)) by(nonlinear_arith);
+        assert(c1 * (P + av * pv) == c1 * P + c1 * (av * pv)) by(nonlinear_arith);
+        assert(c2 * (Q + av * qv) == c2 * Q + c2 * (av * qv)) by(nonlinear_arith);
+    } else {
+        assert(c1 * 0real + c2 * 0real == 0real) by(nonlinear_arith);
+    }
+}
+pub proof fn lemma_rdot_sym(a: Seq<F>, b: Seq<F>, k: int)
+    requires 0 <= k,
+    ensures rdot(a, b, k) == rdot(b, a, k),
+    decreases k,
+{
+    if k > 0 { lemma_rdot_sym(a, b, k - 1); let x = a[k - 1].v(); let y = b[k - 1].v(); assert(x * y == y * x) by(nonlinear_arith); }
+}
+
+// ---- (i) y o (y \ z) = z  whenever y0 != 0 and y0^2 != |y1|^2   (circ_op applied to what inv_circ_op returns)
+pub proof fn lemma_inv_circ_entries(y: Seq<F>, z: Seq<F>)
+    requires y.len() >= 1, z.len() == y.len(), y[0].v() != 0real, resid_r(y) != 0real,
+    ensures ({
+        let x = inv_circ_seq(y, z); let v = rdot(tail(y), tail(z), y.len() - 1); let ip = 1real / resid_r(y); let iy = 1real / y[0].v();
+        &&& x.len() == y.len()
+        &&& x[0].v() == (y[0].v() * z[0].v() - v) * ip
+        &&& forall|i: int| 1 <= i < y.len() ==> #[trigger] x[i].v() == (ip * (v * iy - z[0].v())) * y[i].v() + iy * z[i].v()
+    }),
+{
+    broadcast use real_arith;
+    lemma_resid_real(y);
+    assert(tail(y).len() == tail(z).len());
+    lemma_vm_dot_real(tail(y), tail(z));
+    let y0 = y[0].v(); let v = rdot(tail(y), tail(z), y.len() - 1);
+    assert(v / y0 == v * (1real / y0)) by(nonlinear_arith) requires y0 != 0real;
+}
+pub proof fn lemma_circ_inv_circ(y: Seq<F>, z: Seq<F>, i: int)
+    requires y.len() >= 1, z.len() == y.len(), y[0].v() != 0real, resid_r(y) != 0real, 0 <= i < y.len(),
+    ensures circ_seq(y, inv_circ_seq(y, z))[i].v() == z[i].v(),
+{
+    broadcast use real_arith;
+    let n = y.len() as int;
+    let x = inv_circ_seq(y, z);
+    lemma_inv_circ_entries(y, z);
+    let y0 = y[0].v(); let z0 = z[0].v(); let p = resid_r(y);
+    let v = rdot(tail(y), tail(z), n - 1); let ip = 1real / p; let iy = 1real / y0;
+    assert(ip * p == 1real) by(nonlinear_arith) requires ip == 1real / p, p != 0real;
+    assert(iy * y0 == 1real) by(nonlinear_arith) requires iy == 1real / y0, y0 != 0real;
+    let c1 = ip * (v * iy - z0); let x0 = x[0].v();
+    // y0 c1 = -x0
+    assert(y0 * c1 == -x0) by {
+        let t = v * iy - z0;
+        assert(y0 * t == v - y0 * z0) by(nonlinear_arith) requires t == v * iy - z0, iy * y0 == 1real;
+        assert(y0 * (ip * t) == ip * (y0 * t)) by(nonlinear_arith);
+        assert(ip * (v - y0 * z0) == -((y0 * z0 - v) * ip)) by(nonlinear_arith);
+    }
+    if i == 0 {
+        let N = rdot(tail(y), tail(y), n - 1);
+        assert(N == y0 * y0 - p);
+        lemma_vm_dot_real(y, x);
+        lemma_rdot_split(y, x, n);
+        assert forall|k: int| 0 <= k < n - 1 implies #[trigger] tail(x)[k].v() == c1 * tail(y)[k].v() + iy * tail(z)[k].v() by {
+            assert(tail(x)[k] == x[k + 1] && tail(y)[k] == y[k + 1] && tail(z)[k] == z[k + 1]);
+        }
+        lemma_rdot_lin(tail(y), tail(x), tail(y), tail(z), c1, iy, n - 1);
+        // <y, x> = y0 x0 + c1 N + iy v
+        assert(circ_seq(y, x)[0].v() == y0 * x0 + (c1 * N + iy * v));
+        // c1 N = c1 y0 y0 - c1 p = -x0 y0 - (v iy - z0)
+        assert(c1 * N == (c1 * y0) * y0 - c1 * p) by(nonlinear_arith) requires N == y0 * y0 - p;
+        assert(c1 * p == v * iy - z0) by(nonlinear_arith) requires c1 == ip * (v * iy - z0), ip * p == 1real;
+        assert((c1 * y0) * y0 == -(x0 * y0)) by(nonlinear_arith) requires y0 * c1 == -x0;
+        assert(y0 * x0 == x0 * y0) by(nonlinear_arith);
+        assert(iy * v == v * iy) by(nonlinear_arith);
+    } else {
+        let xi = x[i].v(); let yi = y[i].v(); let zi = z[i].v();
+        assert(xi == c1 * yi + iy * zi);
+        assert(circ_seq(y, x)[i].v() == y0 * xi + x0 * yi);
+        assert(y0 * (c1 * yi + iy * zi) == (y0 * c1) * yi + (iy * y0) * zi) by(nonlinear_arith);
+        assert((-x0) * yi + 1real * zi + x0 * yi == zi) by(nonlinear_arith);
+    }
+}
+
+// ---- (ii) W^{-1} (W x) = x  for a normalised w (w0 > 0, w0^2 - |w1|^2 = 1: what update_scaling establishes) and eta != 0
+pub open spec fn w_normalised(w: Seq<F>) -> bool { w.len() >= 1 && w[0].v() > 0real && resid_r(w) == 1real }
+pub proof fn lemma_mulW_entries(y0: Seq<F>, x: Seq<F>, alpha: F, beta: F, w: Seq<F>, eta: F)
+    requires y0.len() >= 1, x.len() == y0.len(), w.len() == y0.len(), 1real + w[0].v() != 0real,
+    ensures ({
+        let u = mulW_seq(y0, x, alpha, beta, w, eta); let zeta = rdot(tail(w), tail(x), y0.len() - 1);
+        let ae = alpha.v() * eta.v(); let c = x[0].v() + zeta / (1real + w[0].v());
+        &&& u.len() == y0.len()
+        &&& u[0].v() == ae * (w[0].v() * x[0].v() + zeta) + beta.v() * y0[0].v()
+        &&& forall|i: int| 1 <= i < y0.len() ==> #[trigger] u[i].v() == ae * x[i].v() + ((ae * c) * w[i].v() + beta.v() * y0[i].v())
+    }),
+{
+    broadcast use real_arith;
+    assert(tail(w).len() == tail(x).len());
+    lemma_vm_dot_real(tail(w), tail(x));
+}
+pub proof fn lemma_mulWinv_entries(y0: Seq<F>, x: Seq<F>, alpha: F, beta: F, w: Seq<F>, eta: F)
+    requires y0.len() >= 1, x.len() == y0.len(), w.len() == y0.len(), 1real + w[0].v() != 0real, eta.v() != 0real,
+    ensures ({
+        let u = mulWinv_seq(y0, x, alpha, beta, w, eta); let zeta = rdot(tail(w), tail(x), y0.len() - 1);
+        let ae = alpha.v() / eta.v(); let c = -x[0].v() + zeta / (1real + w[0].v());
+        &&& u.len() == y0.len()
+        &&& u[0].v() == ae * (w[0].v() * x[0].v() - zeta) + beta.v() * y0[0].v()
+        &&& forall|i: int| 1 <= i < y0.len() ==> #[trigger] u[i].v() == ae * x[i].v() + ((ae * c) * w[i].v() + beta.v() * y0[i].v())
+    }),
+{
+    broadcast use real_arith;
+    assert(tail(w).len() == tail(x).len());
+    lemma_vm_dot_real(tail(w), tail(x));
+}
+pub proof fn lemma_W_Winv(x: Seq<F>, w: Seq<F>, eta: F, ya: Seq<F>, yb: Seq<F>, i: int)
+    requires x.len() >= 1, w.len() == x.len(), ya.len() == x.len(), yb.len() == x.len(), w_normalised(w), eta.v() != 0real, 0 <= i < x.len(),
+    ensures mulWinv_seq(yb, mulW_seq(ya, x, f_one(), f_zero(), w, eta), f_one(), f_zero(), w, eta)[i].v() == x[i].v(),
+{
+    broadcast use real_arith;
+    let n = x.len() as int; let m = n - 1;
+    let u = mulW_seq(ya, x, f_one(), f_zero(), w, eta);
+    let t = mulWinv_seq(yb, u, f_one(), f_zero(), w, eta);
+    let w0 = w[0].v(); let x0 = x[0].v(); let e = eta.v();
+    lemma_mulW_entries(ya, x, f_one(), f_zero(), w, eta);
+    lemma_mulWinv_entries(yb, u, f_one(), f_zero(), w, eta);
+    let zeta = rdot(tail(w), tail(x), m);
+    let d = 1real / (1real + w0);
+    assert(d * (1real + w0) == 1real) by(nonlinear_arith) requires d == 1real / (1real + w0), w0 > 0real;
+    let c = x0 + zeta * d;
+    assert(zeta / (1real + w0) == zeta * d) by(nonlinear_arith) requires d == 1real / (1real + w0), w0 > 0real;
+    let ec = e * c;
+    let u0 = u[0].v();
+    assert(u0 == e * (w0 * x0 + zeta));
+    assert forall|k: int| 0 <= k < m implies #[trigger] tail(u)[k].v() == e * tail(x)[k].v() + ec * tail(w)[k].v() by {
+        assert(tail(u)[k] == u[k + 1] && tail(x)[k] == x[k + 1] && tail(w)[k] == w[k + 1]);
+    }
+    let N = rdot(tail(w), tail(w), m);
+    assert(N == w0 * w0 - 1real);
+    lemma_rdot_lin(tail(w), tail(u), tail(x), tail(w), e, ec, m);
+    let zeta2 = rdot(tail(w), tail(u), m);
+    assert(zeta2 == e * zeta + ec * N);
+    let ie = 1real / e;
+    assert(ie * e == 1real) by(nonlinear_arith) requires ie == 1real / e, e != 0real;
+    // N d = w0 - 1,   c N = x0 N + zeta (w0 - 1)
+    assert(N * d == w0 - 1real) by(nonlinear_arith) requires N == w0 * w0 - 1real, d * (1real + w0) == 1real;
+    let cN = c * N;
+    assert(cN == x0 * N + zeta * (w0 - 1real)) by(nonlinear_arith) requires cN == c * N, c == x0 + zeta * d, N * d == w0 - 1real;
+    assert(ec * N == e * cN) by(nonlinear_arith) requires ec == e * c, cN == c * N;
+    if i == 0 {
+        // w0 u0 - zeta2 = e (w0 w0 x0 + w0 zeta - zeta - cN) = e x0 (w0 w0 - N) = e x0
+        let inner = w0 * (w0 * x0 + zeta) - zeta - cN;
+        assert(w0 * u0 - zeta2 == e * inner) by(nonlinear_arith)
+            requires u0 == e * (w0 * x0 + zeta), zeta2 == e * zeta + e * cN, inner == w0 * (w0 * x0 + zeta) - zeta - cN;
+        assert(inner == x0) by(nonlinear_arith)
+            requires inner == w0 * (w0 * x0 + zeta) - zeta - cN, cN == x0 * N + zeta * (w0 - 1real), N == w0 * w0 - 1real;
+        assert(t[0].v() == (1real / e) * (w0 * u0 - zeta2) + 0real * yb[0].v());
+        assert(ie * (e * x0) == x0) by(nonlinear_arith) requires ie * e == 1real;
+    } else {
+        let c2 = -u0 + zeta2 / (1real + w0);
+        assert(zeta2 / (1real + w0) == zeta2 * d) by(nonlinear_arith) requires d == 1real / (1real + w0), w0 > 0real;
+        let xi = x[i].v(); let wi = w[i].v(); let ui = u[i].v();
+        assert(ui == e * xi + ec * wi);
+        assert(t[i].v() == ie * ui + ((ie * c2) * wi + 0real * yb[i].v()));
+        // ie c2 = -c
+        let q = -(w0 * x0 + zeta) + (zeta + cN) * d;
+        assert(c2 == e * q) by(nonlinear_arith)
+            requires c2 == -u0 + zeta2 * d, u0 == e * (w0 * x0 + zeta), zeta2 == e * zeta + e * cN, q == -(w0 * x0 + zeta) + (zeta + cN) * d;
+        let cNd = cN * d;
+        assert(cNd == c * (w0 - 1real)) by(nonlinear_arith) requires cNd == cN * d, cN == c * N, N * d == w0 - 1real;
+        assert((zeta + cN) * d == zeta * d + cNd) by(nonlinear_arith) requires cNd == cN * d;
+        let zd = zeta * d;
+        assert(zd * (1real + w0) == zeta) by(nonlinear_arith) requires zd == zeta * d, d * (1real + w0) == 1real;
+        assert(q == -c) by(nonlinear_arith)
+            requires q == -(w0 * x0 + zeta) + (zd + cNd), cNd == c * (w0 - 1real), c == x0 + zd, zd * (1real + w0) == zeta;
+        assert(ie * c2 == -c) by(nonlinear_arith) requires c2 == e * q, q == -c, ie * e == 1real;
+        assert(ie * (e * xi + ec * wi) == xi + c * wi) by(nonlinear_arith) requires ie * e == 1real, ec == e * c;
+        assert((-c) * wi == -(c * wi)) by(nonlinear_arith);
+    }
+}
+
+// ---- (iii) C11: the dense block get_Hs writes, read as the symmetric matrix it packs, applied to x, is what mul_Hs computes
+pub open spec fn imin(a: int, b: int) -> int { if a <= b { a } else { b } }
+pub open spec fn imax(a: int, b: int) -> int { if a >= b { a } else { b } }
+// get_Hs's dense postcondition as a predicate on the packed array
+pub open spec fn is_dense_Hs(h: Seq<F>, w: Seq<F>, eta: F) -> bool {
+    forall|row: int, col: int| 0 <= row <= col < w.len() ==> h[#[trigger] pk(row, col)] == hs_dense(w, eta, row, col)
+}
+// sum over j < k of H(i, j) x_j, H(i, j) = the packed entry (min(i, j), max(i, j))
+pub open spec fn packed_row_dot(h: Seq<F>, x: Seq<F>, i: int, k: int) -> real decreases k {
+    if k <= 0 { 0real } else { packed_row_dot(h, x, i, k - 1) + h[pk(imin(i, k - 1), imax(i, k - 1))].v() * x[k - 1].v() }
+}
+pub open spec fn jsign(i: int) -> real { if i == 0 { -1real } else { 1real } }
+pub proof fn lemma_hs_entry_real(w: Seq<F>, eta: F, row: int, col: int)
+    requires 0 <= row <= col < w.len(),
+    ensures hs_dense(w, eta, row, col).v() == (2real * (w[row].v() * w[col].v()) + (if row == col { jsign(row) } else { 0real })) * (eta.v() * eta.v()),
+{
+    broadcast use real_arith, real_sqrt;
+    let a = w[row].v(); let b = w[col].v(); let r2 = f_sqrt2().v(); let w0 = w[0].v();
+    assert((2real * a) * b == 2real * (a * b)) by(nonlinear_arith);
+    if col == 0 {
+        let t = r2 * w0;
+        assert(t * t == 2real * (w0 * w0)) by(nonlinear_arith) requires t == r2 * w0, r2 * r2 == 2real;
+        assert((t - 1real) * (t + 1real) == t * t - 1real) by(nonlinear_arith);
+    }
+}
+pub proof fn lemma_packed_row(h: Seq<F>, x: Seq<F>, w: Seq<F>, eta: F, i: int, k: int)
+    requires is_dense_Hs(h, w, eta), x.len() == w.len(), 0 <= i < w.len(), 0 <= k <= w.len(),
+    ensures packed_row_dot(h, x, i, k) == (eta.v() * eta.v()) * (2real * (w[i].v() * rdot(w, x, k)) + (if i < k { jsign(i) * x[i].v() } else { 0real })),
+    decreases k,
+{
+    let ee = eta.v() * eta.v(); let wi = w[i].v();
+    if k > 0 {
+        lemma_packed_row(h, x, w, eta, i, k - 1);
+        let j = k - 1; let r = imin(i, j); let c = imax(i, j);
+        assert(h[pk(r, c)] == hs_dense(w, eta, r, c));
+        lemma_hs_entry_real(w, eta, r, c);
+        let wj = w[j].v(); let xj = x[j].v(); let D = rdot(w, x, j);
+        assert(w[r].v() * w[c].v() == wi * wj) by(nonlinear_arith) requires (w[r].v() == wi && w[c].v() == wj) || (w[r].v() == wj && w[c].v() == wi);
+        let dl = if i == j { jsign(i) } else { 0real };
+        let hij = (2real * (wi * wj) + dl) * ee;
+        assert(h[pk(r, c)].v() == hij);
+        let prev = if i < j { jsign(i) * x[i].v() } else { 0real };
+        assert(hij * xj == ee * (2real * (wi * (wj * xj)) + dl * xj)) by(nonlinear_arith) requires hij == (2real * (wi * wj) + dl) * ee;
+        assert(ee * (2real * (wi * D) + prev) + ee * (2real * (wi * (wj * xj)) + dl * xj) == ee * (2real * (wi * (D + wj * xj)) + (prev + dl * xj))) by(nonlinear_arith);
+    } else {
+        assert(ee * (2real * (wi * 0real) + 0real) == 0real) by(nonlinear_arith);
+    }
+}
+pub proof fn lemma_Hs_is_mulHs(h: Seq<F>, x: Seq<F>, w: Seq<F>, eta: F, i: int)
+    requires is_dense_Hs(h, w, eta), x.len() == w.len(), 0 <= i < w.len(),
+    ensures packed_row_dot(h, x, i, w.len() as int) == mulHs_seq(x, w, eta)[i].v(),
+{
+    broadcast use real_arith;
+    lemma_packed_row(h, x, w, eta, i, w.len() as int);
+    lemma_vm_dot_real(w, x);
+    let ee = eta.v() * eta.v(); let wi = w[i].v(); let D = rdot(w, x, w.len() as int); let xi = x[i].v();
+    let sx = if i == 0 { -x[0].v() } else { x[i].v() };
+    assert(mulHs_seq(x, w, eta)[i].v() == ((D * 2real) * wi + 1real * sx) * ee);
+    assert(jsign(i) * xi == sx) by(nonlinear_arith) requires (i == 0 && jsign(i) == -1real && sx == -xi) || (i != 0 && jsign(i) == 1real && sx == xi);
+    assert(((D * 2real) * wi + 1real * sx) * ee == ee * (2real * (wi * D) + sx)) by(nonlinear_arith);
 }
 
 } // verus!
